@@ -21,6 +21,14 @@ RE_POOL = [
 ]
 
 CORPUS = [
+    # round-8 change C04-8A: a poll that timed out is repeated after another call consumed text and left a remainder of the same length
+    dict(mode='b', ops=[dict(k='x', W=None, pats=[['s', 'zz'], ['T']]), dict(k='x', W=None, pats=[['s', 'c']]), dict(k='x', W=None, pats=[['s', 'zz'], ['T']])],
+         script=[['d', 'ab'], ['T'], ['d', 'czz'], ['T']]),
+    dict(mode='u', ops=[dict(k='r', W=None, pats=[['re', 's', ['seq', ['chr', 122], ['chr', 122]]], ['T']]), dict(k='x', W=None, pats=[['s', 'c']]),
+                        dict(k='r', W=None, pats=[['re', 's', ['seq', ['chr', 122], ['chr', 122]]], ['T']]), dict(k='r', W=None, pats=[['re', 's', ['seq', ['chr', 122], ['chr', 122]]], ['T']])],
+         script=[['d', 'ab'], ['T'], ['d', 'czz'], ['T'], ['T']]),
+    dict(mode='b', ops=[dict(k='x', W=3, pats=[['s', 'zz']]), dict(k='x', W=3, pats=[['s', 'b']]), dict(k='x', W=3, pats=[['s', 'zz']])],
+         script=[['d', 'ab'], ['X'], ['d', 'zz'], ['T']]),
     # round-8 change C02-8A: another live object prepared the same pattern text with the other ignorecase setting
     dict(mode='b', twin=True, ops=[dict(k='r', W=None, pats=[['re', 's', ['chr', 97]]])], script=[['d', 'Aa']]),
     dict(mode='u', twin=True, ops=[dict(k='r', W=None, ic=True, pats=[['re', 'si', ['chr', 97]]]), dict(k='r', W=None, pats=[['re', 's', ['chr', 97]]])],
@@ -198,6 +206,16 @@ def rand_case(rng, maxlen=40, maxops=6):
             op['list_api'] = rng.random() < 0.3
         op['single'] = (len(pats) == 1 and rng.random() < 0.5)
         ops.append(op)
+    # polling loops: an earlier call is made again later with the very same arguments (whatever the calls in between consumed)
+    if rng.random() < 0.25:
+        prior = [o for o in ops if o['k'] in ('x', 'r')]
+        if prior:
+            again = copy.deepcopy(rng.choice(prior))
+            if ['T'] not in again['pats'] and rng.random() < 0.7:
+                again['pats'].append(['T'])
+            ops.append(again)
+            if rng.random() < 0.5:
+                ops.append(copy.deepcopy(again))
     # stream: random text with planted occurrences
     n = rng.randrange(0, maxlen + 1)
     text = ''
